@@ -187,18 +187,23 @@ Section Mono.
     pose proof (proj1 (proj2 (mono_grow)) _ _ MB) as GB.
     destruct (Bool.eqb bv (is_if k)).
     - rewrite (start_time_nop _ _ _ FN). cbn [expect_time obind].
-      apply good_bind.
-      { apply check_ok_nt. destruct first; cbn [negb orb]; auto. apply Z.eqb_eq. rewrite ET. apply FE. reflexivity. }
-      intros ck CK.
+      assert (FS : (if first then fall L (Strict fl) t (s_time st1) st1 else Ok (set_time L t st1)) = Ok (set_time L t st1)).
+      { destruct first; auto. unfold fall. rewrite ET, (FE eq_refl), Z.eqb_refl. reflexivity. }
+      rewrite FS. cbn [obind].
       destruct (QB t b (set_time L t st1) cur ltac:(cbn; lia) MB WF) as [N1 B1].
       apply good_bind; auto. intros [r st2] RB. cbn [fst snd].
       destruct r; [|apply good_ok; discriminate].
       rewrite (chain_end_time_wf _ cur rc b t BK WFC). cbn [expect_time obind].
       specialize (B1 st2 RB).
       assert (TG : block_after L b t <= s_time st2) by (eapply run_block_time_ge; eauto).
-      apply good_bind.
-      { apply check_ok_nt. destruct rc; auto. apply Z.eqb_eq. change (chain_after L CEnd (block_after L b t)) with (block_after L b t). lia. }
-      intros ck2 CK2. apply good_ok. intros _. cbn. lia.
+      set (te := chain_after L rc (block_after L b t)).
+      assert (FS2 : match rc with
+                   | CEnd => fall L (Strict fl) te (s_time st2) st2
+                   | _ => Ok (set_time L te st2)
+                   end = Ok (set_time L te st2)).
+      { destruct rc; auto. unfold fall, te. change (chain_after L CEnd (block_after L b t)) with (block_after L b t).
+        replace (s_time st2) with (block_after L b t) by lia. rewrite Z.eqb_refl. reflexivity. }
+      rewrite FS2. cbn [obind]. apply good_ok. intros _. cbn. lia.
     - destruct rc as [|eb|k' c' b' rc'].
       + rewrite (end_time_nop _ _ _ LN). cbn [expect_time obind]. apply good_ok. intros _. cbn.
         change (chain_after L CEnd (block_after L b t)) with (block_after L b t). lia.
@@ -212,8 +217,8 @@ Section Mono.
         rewrite (end_time_nop _ _ _ LNe). cbn [expect_time obind].
         specialize (B1 st2 RB).
         assert (TG : block_after L eb (block_after L b t) <= s_time st2) by (eapply run_block_time_ge; eauto).
-        apply good_bind. { apply check_ok_nt. apply Z.eqb_eq. lia. }
-        intros ck2 CK2. apply good_ok. intros _. cbn. lia.
+        unfold fall. replace (s_time st2) with (block_after L eb (block_after L b t)) by lia.
+        rewrite Z.eqb_refl. cbn [obind]. apply good_ok. intros _. cbn. lia.
       + rewrite wf_CElif in WFC. apply andb_prop in WFC. destruct WFC as [WFC WFr]. apply andb_prop in WFC. destruct WFC as [BKe WFe].
         rewrite mono_chain_elif in MC. apply andb_prop in MC. destruct MC as [MB' MC'].
         change (chain_after L (CElif k' c' b' rc') (block_after L b t)) with (chain_after L rc' (block_after L b' (block_after L b t))).
@@ -260,12 +265,12 @@ Section Mono.
         rewrite (start_time_nop _ _ _ FN), (end_time_nop _ _ _ LN); cbn [expect_time obind];
         (apply good_bind; [apply H_eval_nt|]); intros [n r1] EV; cbn [fst snd]; cbv zeta.
       + destruct (n =? 0). apply good_ok. intros _. cbn. lia.
-        apply good_bind. apply check_ok_nt. apply Z.eqb_eq. exact TE. intros ck CK.
+        unfold fall. rewrite TE, Z.eqb_refl. cbn [obind].
         apply good_of_st. apply (QI t b (LKClobber v) _ (Some id)); auto. cbn. lia.
       + destruct (n =? 0). apply good_ok. intros _. cbn. lia.
         apply good_bind. apply check_nt_other. discriminate. intros ck CK.
         destruct (n <? 0). apply good_ok. intros _. cbn. lia.
-        apply good_bind. apply check_ok_nt. apply Z.eqb_eq. exact TE. intros ck2 CK2.
+        unfold fall. rewrite TE, Z.eqb_refl. cbn [obind].
         apply good_of_st. apply (QI t b (LKCount n) _ (Some id)); auto. cbn. lia.
   Qed.
 
